@@ -1261,6 +1261,10 @@ func VerifTransportThroughCall(t int) bool {
 	return false
 }
 
+// VerifMapTransport / VerifDeferStoreTransport identify two transports named by harnesses.
+func VerifMapTransport(t int) bool        { return t == ptMap }
+func VerifDeferStoreTransport(t int) bool { return t == ptDeferStore }
+
 // VerifByValueClosure reports whether transport t binds the data itself (not its address) in a closure.
 func VerifByValueClosure(t int) bool { return t == ptCallClosure }
 
